@@ -719,7 +719,7 @@ fn run_c15(args: &Args) -> Report {
     let t0 = Instant::now();
     let mut n = 0u64;
     while t0.elapsed().as_secs_f64() < args.budget_s {
-        let case_seed = r.next_u64();
+        let Some(case_seed) = args.next_case(&mut r) else { break };
         let mut cr = Rng::new(case_seed);
         let ops = gen_sequence(&mut cr, &env, true);
         let stepwise = cr.chance(1, 2);
@@ -981,7 +981,7 @@ fn run_c16(args: &Args) -> Report {
     let root_uri = file_uri(&env.proj.display().to_string());
     let uris = [file_uri(&env.proj.join("src/a.gleam").display().to_string()), file_uri(&env.proj.join("src/b.gleam").display().to_string())];
     while t0.elapsed().as_secs_f64() < args.budget_s {
-        let case_seed = r.next_u64();
+        let Some(case_seed) = args.next_case(&mut r) else { break };
         let mut cr = Rng::new(case_seed);
         let ndocs = cr.range(1, 2);
         // versions[d][v] = text of doc d at global step v
@@ -1268,7 +1268,7 @@ fn run_c17(args: &Args) -> Report {
     let mut n = 0u64;
     const MODS: &[&str] = &["alpha", "beta", "shared", "util/helpers", "deep/er/mod", "core", "app/main", "zeta"];
     while t0.elapsed().as_secs_f64() < args.budget_s {
-        let case_seed = r.next_u64();
+        let Some(case_seed) = args.next_case(&mut r) else { break };
         let mut cr = Rng::new(case_seed);
         let _ = std::fs::remove_dir_all(&base);
         let root = base.join("ws/root");
